@@ -172,3 +172,31 @@ def returns(idx, cls, meth, want, **kw):
 
 
 JOIN = {"os.path.join": lambda i, c, r, a, k: "/".join(str(x) for x in a)}
+
+
+def reference_parser_handler(idx):
+    """a handler for `ReferenceParser(string)` that interprets the real class (constructor + parse) on an abstract object"""
+    from sa.absint import Obj
+    methods = {f"ReferenceParser.{m}" for m in idx.cls("ReferenceParser").methods}
+
+    def h(interp, call, recv, args, kwargs):
+        n = interp.store.get("__ref_n__", 0) + 1
+        interp.store["__ref_n__"] = n
+        o = Obj(f"ref{n}")
+        interp.types[o.name] = "ReferenceParser"
+        interp.inline |= methods
+        consts = idx.cls("ReferenceParser").class_assigns
+        for k, v in consts.items():
+            if isinstance(v, ast.Constant):
+                interp.store.setdefault(f"ReferenceParser.{k}", v.value)
+        fi = idx.method("ReferenceParser", "__init__")
+        a = {"__pos__": list(args)}
+        a.update(kwargs)
+        interp.call_function(fi, a, o.name)
+        # the property setters store through the public names; mirror them onto the private ones the getters read
+        for pub, priv in (("root_major", "_root_major"), ("root_minor", "_root_minor"), ("datatype", "_datatype"), ("names", "_names")):
+            if f"{o.name}.{pub}" in interp.store:
+                interp.store[f"{o.name}.{priv}"] = interp.store[f"{o.name}.{pub}"]
+        return o
+
+    return h
